@@ -1,6 +1,6 @@
 """C13 / evaluators: with the lambda back-end a state handed over as a fixed-width integer array is evaluated in
 wrap-around integer arithmetic: the sensitivity system of a count model started at [999, 1] is wrong for int32 input
-(and for int64 input once a product passes 9.2e18).  exit 0 = all input forms agree, exit 1 = they do not.
+(and for int64 input once a product passes 9.2e18).  exit 0 = all input forms agree (so since fix ea55e76), exit 1 = they do not.
 Run: [VERIF_REPO=<tree>] /venv/bin/python findings/C13_int_state_overflow_demo.py"""
 import os, sys
 sys.path.insert(0, os.path.dirname(os.path.dirname(os.path.abspath(__file__))))
